@@ -7,13 +7,19 @@
   The correspondence check ties `Alloc` to src/entity/allocator/mod.rs through the slot/free-list
   dump after every operation and through `probe` ops on every identifier ever issued.
 
-  Overflow: generations are `Nat`; the code's `wrapping_add(1)` equals `+ 1` while a slot has been
-  reused fewer than 2^64 times (trusted-base note in DESIGN §9, not an axiom).
+  Overflow: generations are `Nat` in `Alloc`; the code's `u64` generations with `wrapping_add(1)`
+  are the subject of the last section (`arunW`): the machine allocator is the image of the `Nat`
+  one under reduction modulo 2^64 for every history (`C02_machine_simulation`), coincides with it
+  along every history that issues fewer than 2^64 identifiers (`C02_machine_partial` — the C02
+  statements for the machine allocator, *partial*: bounded by that count), and beyond it the full
+  statement is false of the code (`C02_machine_wrap_witness`).
 -/
 import BroodModel.Lemmas.Alloc
 import BroodModel.Lemmas.AllocPres
 import BroodModel.Lemmas.Entity
 import BroodModel.Lemmas.CloneFromDrops
+import BroodModel.Lemmas.Wrap
+import BroodModel.Generated.Tables
 
 namespace Brood
 open Alloc
@@ -328,6 +334,180 @@ theorem C02_world_stable {w w' : World} (hi : Inv w) {id x : Ident} (hne : x ≠
 
 end Brood
 
+namespace Brood
+open Alloc
+
+/-! ### the machine allocator: `u64` generations, `wrapping_add(1)` (src/entity/allocator/slot.rs:56)
+
+`astepW m` / `arunW m` are `astep` / `arun` with the generation counter of `m` values
+(`Lemmas/Wrap`: `allocateW`, `allocateBatchW`); the code is `m = 2^64`. -/
+
+def astepW (m : Nat) (s : AState) : AOp → Out (AState × List Ident)
+  | .alloc loc =>
+    match allocateW m s.a loc with
+    | .ok (a', id) => .ok (⟨a', id :: s.issued, s.retired⟩, [id])
+    | .ub w => .ub w
+  | .batch h start n =>
+    match allocateBatchW m s.a h start n with
+    | .ok (a', ids) => .ok (⟨a', ids.reverse ++ s.issued, s.retired⟩, ids)
+    | .ub w => .ub w
+  | op => astep s op
+
+def arunW (m : Nat) (s : AState) : List AOp → Out AState
+  | [] => .ok s
+  | op :: ops =>
+    match astepW m s op with
+    | .ok (s', _) => arunW m s' ops
+    | .ub w => .ub w
+
+/-- Identifiers an operation issues. -/
+def AOp.cost : AOp → Nat
+  | .alloc _ => 1
+  | .batch _ _ n => n
+  | _ => 0
+
+def cost : List AOp → Nat
+  | [] => 0
+  | op :: ops => op.cost + cost ops
+
+theorem astep_genLe {s s' : AState} {out : List Ident} {k : Nat} (hb : GenLe s.a k) (op : AOp)
+    (e : astep s op = .ok (s', out)) : GenLe s'.a (k + op.cost) := by
+  cases op with
+  | alloc loc =>
+    simp only [astep] at e
+    cases h1 : s.a.allocate loc with
+    | ub w => simp [h1] at e
+    | ok p =>
+      obtain ⟨a', id⟩ := p
+      simp [h1] at e
+      obtain ⟨rfl, _⟩ := e
+      exact (allocate_genLe hb h1).1
+  | batch h start n =>
+    simp only [astep] at e
+    cases h1 : s.a.allocateBatch h start n with
+    | ub w => simp [h1] at e
+    | ok p =>
+      obtain ⟨a', ids⟩ := p
+      simp [h1] at e
+      obtain ⟨rfl, _⟩ := e
+      exact allocateBatch_genLe n hb h1
+  | release id =>
+    simp only [astep] at e
+    cases hg : s.a.get id with
+    | none => simp [hg] at e; obtain ⟨rfl, _⟩ := e; simpa [AOp.cost] using hb
+    | some l =>
+      simp [hg] at e
+      cases h1 : s.a.release id with
+      | ub w => simp [h1] at e
+      | ok a' =>
+        simp [h1] at e
+        obtain ⟨rfl, _⟩ := e
+        simpa [AOp.cost] using release_genLe hb h1
+  | move id loc =>
+    simp only [astep] at e
+    cases hg : s.a.get id with
+    | none => simp [hg] at e; obtain ⟨rfl, _⟩ := e; simpa [AOp.cost] using hb
+    | some l =>
+      simp [hg] at e
+      cases h1 : s.a.setLoc id loc with
+      | ub w => simp [h1] at e
+      | ok a' =>
+        simp [h1] at e
+        obtain ⟨rfl, _⟩ := e
+        simpa [AOp.cost] using setLoc_genLe hb h1
+
+theorem astepW_eq_astep (m : Nat) {s : AState} {k : Nat} (hb : GenLe s.a k) (op : AOp)
+    (hk : k + op.cost < m) : astepW m s op = astep s op := by
+  cases op with
+  | alloc loc => simp only [astepW, astep, allocateW_eq m hb (by simpa [AOp.cost] using hk)]
+  | batch h start n =>
+    simp only [astepW, astep, allocateBatchW_eq m n hb (by simpa [AOp.cost] using hk)]
+  | release id => rfl
+  | move id loc => rfl
+
+/-- Along a history that issues fewer than `m` identifiers in total, the machine allocator and the
+`Nat` allocator take exactly the same steps. -/
+theorem arunW_eq_arun (m : Nat) : ∀ (ops : List AOp) (s : AState) (k : Nat),
+    GenLe s.a k → k + cost ops < m → arunW m s ops = arun s ops
+  | [], s, k, _, _ => rfl
+  | op :: ops, s, k, hb, hk => by
+    simp only [cost] at hk
+    simp only [arunW, arun, astepW_eq_astep m hb op (by omega)]
+    cases h1 : astep s op with
+    | ub w => rfl
+    | ok p =>
+      obtain ⟨s', out⟩ := p
+      exact arunW_eq_arun m ops s' (k + op.cost) (astep_genLe hb op h1) (by omega)
+
+/-- For a generation counter of `m` values: every history that issues fewer than `m` identifiers
+never reaches an unchecked access, issues pairwise distinct identifiers, and no retired identifier —
+not only the most recent — resolves again. -/
+theorem C02_machine_partial_m (m : Nat) (ops : List AOp) (h : cost ops < m) :
+    ∃ s, arunW m AState.init ops = .ok s ∧ s.issued.Nodup ∧
+      ∀ id ∈ s.retired, s.a.get id = none ∧ s.a.isActive id = false := by
+  rw [arunW_eq_arun m ops AState.init 0 GenLe.empty (by omega)]
+  obtain ⟨s, e, g⟩ := arun_good AGood.init ops
+  obtain ⟨s', e', hd⟩ := C02_dead_forever ops
+  rw [e] at e'; cases e'
+  exact ⟨s, e, g.nodup, hd⟩
+
+/-- **The counter the code has** (regenerated from src/entity/allocator/slot.rs and
+src/entity/identifier/mod.rs on every run): 64 bits in the slot, 64 bits in the identifier (no
+narrowing between the two), starts at 0, bumped by `wrapping_add(1)`.  A narrower counter — a `u16`
+generation "to save memory" — still compiles and passes every test, and makes C02 false after
+65 536 reuses of one slot; this obligation then fails, and the `churn` scenario of the
+correspondence exhibits the reissued identifier. -/
+theorem C02_machine_counter : Generated.genCounter = (64, 64, 0, 1) := by decide
+
+/-- **C02 for the machine allocator — partial** (bounded by the number of identifiers issued; the
+unbounded statement is false of the code, see `C02_machine_wrap_witness`).  For every history that
+issues fewer than 2^(bits of the code's counter) = 2^64 identifiers, the allocator with the code's
+generation counter never reaches an unchecked access, issues pairwise distinct identifiers, and
+no retired identifier resolves again. -/
+theorem C02_machine_partial (ops : List AOp) (h : cost ops < 2 ^ 64) :
+    ∃ s, arunW (2 ^ Generated.genCounter.1) AState.init ops = .ok s ∧ s.issued.Nodup ∧
+      ∀ id ∈ s.retired, s.a.get id = none ∧ s.a.isActive id = false := by
+  have hc : Generated.genCounter.1 = 64 := by rw [C02_machine_counter]
+  rw [hc]
+  exact C02_machine_partial_m (2 ^ 64) ops h
+
+/-- **Simulation, every history**: whatever the `Nat` allocator does in one step, the machine
+allocator does on the state with all generations reduced modulo `m`, and hands out the reduced
+identifiers.  (Statement for the three primitives every world operation goes through —
+`step_apres`.) -/
+theorem C02_machine_simulation (m : Nat) {a a' : Alloc} :
+    (∀ loc id, a.allocate loc = .ok (a', id) → allocateW m (a.wrap m) loc = .ok (a'.wrap m, id.wrap m)) ∧
+    (∀ h start n ids, a.allocateBatch h start n = .ok (a', ids) →
+      allocateBatchW m (a.wrap m) h start n = .ok (a'.wrap m, ids.map (Ident.wrap m))) ∧
+    (∀ id, a.release id = .ok a' → (a.wrap m).release (id.wrap m) = .ok (a'.wrap m)) ∧
+    (∀ id loc, a.setLoc id loc = .ok a' → (a.wrap m).setLoc (id.wrap m) loc = .ok (a'.wrap m)) ∧
+    (∀ id l, a.get id = some l → (a.wrap m).get (id.wrap m) = some l) :=
+  ⟨fun _ _ e => allocateW_sim m e, fun _ _ n _ e => allocateBatchW_sim m n e,
+   fun _ e => release_sim m e, fun _ _ e => setLoc_sim m e, fun _ _ e => get_sim m e⟩
+
+/-- **The unbounded statement is false of `wrapping_add`**: a free slot that has been through all
+`m` values of the counter is handed out with the generation of its first identifier; the stale
+first identifier then resolves to the new entity.  (With `m = 2^64` no run gets there; C02's
+"never resolves again" holds of the code only up to that count.) -/
+theorem C02_machine_wrap_witness (m : Nat) (hm : 0 < m) (loc : Loc) :
+    ∃ a', allocateW m ⟨[⟨m - 1, none⟩], [0]⟩ loc = .ok (a', ⟨0, 0⟩) ∧ a'.get ⟨0, 0⟩ = some loc :=
+  wrap_reissues m hm 0 [] [⟨m - 1, none⟩] ⟨m - 1, none⟩ rfl rfl loc
+
+/-! The witness state is reachable, shown on a counter of 3 values: the fourth identifier of slot 0
+is the first one again (a *test* of the mechanism on a small counter, not a claim about 2^64). -/
+example :
+    (match arunW 3 AState.init
+        [.alloc ⟨0, 0⟩, .release ⟨0, 0⟩, .alloc ⟨0, 0⟩, .release ⟨0, 1⟩, .alloc ⟨0, 0⟩,
+         .release ⟨0, 2⟩, .alloc ⟨0, 0⟩] with
+     | .ok s => some (s.issued, s.a.get ⟨0, 0⟩)
+     | .ub _ => none) =
+    some ([⟨0, 0⟩, ⟨0, 2⟩, ⟨0, 1⟩, ⟨0, 0⟩], some ⟨0, 0⟩) := by decide
+
+/-! Non-vacuity of `C02_machine_partial`: a history with reuse below the bound. -/
+example : cost [AOp.batch 0 0 3, .release ⟨0, 0⟩, .alloc ⟨0, 1⟩] < 2 ^ 64 := by decide
+
+end Brood
+
 #print axioms Brood.C02_unique
 #print axioms Brood.C02_fresh
 #print axioms Brood.C02_dead_forever
@@ -338,3 +518,9 @@ end Brood
 #print axioms Brood.C02_world_stable
 #print axioms Brood.C02_world_dead_in_copies
 #print axioms Brood.C02_world_dead_after_clone_from
+#print axioms Brood.arunW_eq_arun
+#print axioms Brood.C02_machine_partial
+#print axioms Brood.C02_machine_simulation
+#print axioms Brood.C02_machine_wrap_witness
+#print axioms Brood.C02_machine_partial_m
+#print axioms Brood.C02_machine_counter
